@@ -184,11 +184,11 @@ var goPieces = []string{
 }
 
 func genGoInput(t *rapid.T) string {
-	n := rapid.IntRange(-1, 14).Draw(t, "n")
-	if n < 0 {
+	n := rapid.IntRange(0, 15).Draw(t, "n") // rapid favours the lower bound: map it to a mid size, keep empty rare
+	if n == 0 {
+		n = 5
+	} else if n == 15 {
 		n = 0
-	} else if n == 0 {
-		n = 4
 	}
 	var sb strings.Builder
 	for i := 0; i < n; i++ {
